@@ -61,7 +61,7 @@ type Dyn struct {
 	Cap     int                       // ring capacity
 	ElemOf  func(r *core.R) any       // a random element (value containers) for workloads
 	JSONArr bool                      // serializes as an array (value containers) / object (key-value containers)
-	Reads   func() []NamedRead        // read-only catalogue (C18)
+	Reads   func() []ReadOp           // read-only catalogue with sequential answers (C18)
 	// argument-slice aliasing probes (C16): each builds a NEW container from /
 	// adds a caller-owned slice and returns the container plus a function that
 	// scribbles over the caller's slice.
@@ -142,13 +142,6 @@ type dynContainer interface {
 	Size() int
 	Clear()
 	String() string
-}
-
-// NamedRead is one read-only operation returning a canonical rendering of
-// its answer.
-type NamedRead struct {
-	Name string
-	F    func() string
 }
 
 func toAny[T any](vs []T) []any {
@@ -283,6 +276,7 @@ func drawCfg(r *core.R, total bool) dynCfg {
 func NewDyn[T comparable, V comparable](kind string, d *Dom[T], dv *Dom[V], cfg dynCfg) *Dyn {
 	dy := newDyn(kind, d, dv, cfg)
 	dy.TotalOrder = cfg.cmp < 2 && cfg.vcmp < 2
+	attachReads(dy, d, dv, cfg)
 	return dy
 }
 
